@@ -15,7 +15,8 @@ MkVec(lens, id0) == [i \in 1..Len(lens) |-> El(id0 + i - 1, 0, lens[i])]
 MemFor(lens, id0) == [id \in id0..(id0 + Len(lens) - 1) |-> Fresh(id, lens[id - id0 + 1])]
 Nulls(N) == [k \in 1..N |-> El(0, 0, 0)]
 
-OwnCfgs == {[ff |-> 1, bf |-> 2, amax |-> 1000], [ff |-> 0, bf |-> 1, amax |-> 2], [ff |-> 1, bf |-> 3, amax |-> 2]}
+OwnCfgs == {[ff |-> 1, bf |-> 2, amax |-> 1000], [ff |-> 0, bf |-> 1, amax |-> 2]}
+              \cup (IF MaxLen >= 3 THEN {[ff |-> 1, bf |-> 3, amax |-> 2]} ELSE {})     \* the thorough configuration adds a third
 InitStates ==
   {[v |-> MkVec(l, 1), mem |-> MemFor(l, 1), own |-> FALSE, ff |-> 0, bf |-> 0, nb |-> 0, nx |-> Len(l) + 1, cap |-> 0, amax |-> 0]
       : l \in Shapes(MaxEl, MaxLen)}
@@ -28,17 +29,18 @@ O(op, n, off, N, lens, wk) == [op |-> op, n |-> n, off |-> off, N |-> N, lens |-
 Choices(s, d) ==
   LET T == Sum(s.v)
       cnt == 0..(T + 2)
-      others == IF d = 0 THEN Shapes(OtherEl, OtherLen) ELSE {<<>>, <<2>>, <<1, 0, 2>>}
+      few == {<<>>, <<2>>, <<1, 0, 2>>}
+      others == IF d = 0 THEN Shapes(OtherEl, OtherLen) ELSE few
       slots == IF d = 0 THEN 0..(Len(s.v) + 1) ELSE {0, 1, 2}
-      wks == IF s.own THEN {"v", "o"} ELSE {"v"}
   IN {O(op, n, 0, 0, <<>>, "v") : op \in {"sum"}, n \in {0}}
      \cup {O(op, n, 0, 0, <<>>, "v") : op \in {"shrink", "xf", "xb", "xfb", "xbb", "xfc", "xbc", "mtob", "mfromb", "ptob"}, n \in cnt}
      \cup (IF s.own THEN {} ELSE {O("shrinklt", n, 0, 0, <<>>, "v") : n \in cnt})
      \cup {O(op, n, 0, N, <<>>, "v") : op \in {"xfv", "xbv"}, n \in cnt, N \in slots}
      \cup (IF s.own THEN {O(op, n, 0, 0, <<>>, "o") : op \in {"xfv", "xbv"}, n \in cnt} ELSE {})
      \cup {O("slice", n, off, N, <<>>, "v") : n \in cnt, off \in 0..(T + 1), N \in slots}
-     \cup {O(op, n, 0, 0, l, wk) : op \in {"mtov", "mfromv", "ptov", "pfromv"}, l \in others, wk \in wks,
-                                   n \in (0..(T + 1)) \cup {INFSZ}}
+     \cup {O(op, n, 0, 0, l, "v") : op \in {"mtov", "mfromv", "ptov", "pfromv"}, l \in others, n \in (0..(T + 1)) \cup {INFSZ}}
+     \cup (IF s.own THEN {O(op, n, 0, 0, l, "o") : op \in {"mtov", "mfromv", "ptov", "pfromv"}, l \in few, n \in (0..(T + 1)) \cup {INFSZ}}
+           ELSE {})
      \cup (IF s.own THEN {O(op, n, 0, 0, <<>>, "v") : op \in {"pb", "pf", "pba", "pfa", "trunc"}, n \in 0..(T + 3)}
                          \cup {O(op, 0, 0, 0, <<>>, "v") : op \in {"popf", "popb"}}
            ELSE {})
@@ -80,7 +82,10 @@ F13sig == /\ last.o.op \in {"mtob", "mfromb", "mtov", "mfromv", "ptov", "pfromv"
           /\ last.probs = {"reads iov[0] of an empty iovector_view"}
 F14sig == /\ last.o.op = "slice" /\ last.T = 0 /\ last.o.N = 0 /\ last.o.n > 0 /\ last.ret = -1
           /\ last.probs = {"-1 although the request can be truncated to the content"}
-Known == ("F7" \in KF /\ F7sig) \/ ("F13" \in KF /\ F13sig) \/ ("F14" \in KF /\ F14sig)
+\* a tolerated outcome is printed, so that the driver knows which of the tolerated findings were actually met
+Known == \/ ("F7" \in KF /\ F7sig /\ PrintT("KFHIT F7"))
+         \/ ("F13" \in KF /\ F13sig /\ PrintT("KFHIT F13"))
+         \/ ("F14" \in KF /\ F14sig /\ PrintT("KFHIT F14"))
 
 \* the property: every outcome of the transcription is what the flat-sequence reference demands
 Correct == last.probs = {} \/ Known
